@@ -1,5 +1,5 @@
 """C04 - list constraints hold on exactly the list the user sees."""
-from .. import engine, fam_list
+from .. import engine, fam_list, fam_mc
 
 LEVEL = "model_checking"
 
@@ -8,9 +8,15 @@ def run(tier, seed, limit=0):
     chk = engine.Check("C04", tier, seed)
     scs = fam_list.family_fixed(tier, seed) + fam_list.family_randsz(tier, seed) + fam_list.family_objlist(tier, seed)
     scs += fam_list.family_objlist_randsz(tier, seed) + fam_list.family_randsz_nested(tier, seed) + fam_list.family_uniqvec(tier, seed)
+    mc_scs, sim_states = fam_mc.family_mc_list(tier, seed)          # TLC-generated behaviours of MC_VscList, replayed
+    scs = scs + mc_scs
+    chk.extra_cov["tlc_generated_histories_replayed"] = len(mc_scs)
+    chk.extra_cov["tlc_simulation_states"] = sim_states
     if limit:
         scs = scs[:limit]
     chk.run_scenarios(scs, "Trace_VscRand")
+    # the API machine on lists, every history of edits / toggles / calls on two objects up to the level bound
+    chk.run_mc("MC_VscList", {"MaxLevel": 5 if tier == "quick" else 6}, workers=12, timeout=3000, label="A-level API machine on world W-lists")
     return chk.finish(LEVEL, "fixed-size lists (sizes 0..3): foreach over element / index / both, index arithmetic under a guard, sum, "
                       "unique, membership, literal indices, with exhaustive truth tables over (scalars, elements) before and after "
                       "append/extend/assign/clear/setitem; random-size lists with bounded size: every size pinned in turn (SolveFailure "
